@@ -45,6 +45,7 @@ type RawContract struct {
 	Split    string
 	GenName  string // name of generated clause function
 	Reveal   []string
+	NoSubtype bool
 }
 
 type RawSpec struct {
@@ -228,6 +229,8 @@ func parseContractFile(path string) (*ContractFile, error) {
 				cur.Props = strings.Fields(strings.ReplaceAll(rest, ",", " "))
 			case "reveal":
 				cur.Reveal = append(cur.Reveal, strings.Fields(strings.ReplaceAll(rest, ",", " "))...)
+			case "nosubtype":
+				cur.NoSubtype = true
 			case "trusted":
 				cur.Trusted = true
 			case "inline":
@@ -528,6 +531,8 @@ func govcRVTypeTag(m, i int) int                          { return 0 }
 func govcTypeTag[T any]() int                             { return 0 }
 func govcIsLE(x interface{}) bool                         { return false }
 func govcIsBE(x interface{}) bool                         { return false }
+func govcIfaceObj(x interface{}) int                      { return 0 }
+func govcAllFields[T any](p *T) int                       { return 0 }
 func govcIsEOF(err error) bool                            { return false }
 func govcIsUEOF(err error) bool                           { return false }
 func govcErrIs[T any](err error, target T) bool           { return false }
@@ -691,7 +696,7 @@ func genOverlay(cf *ContractFile) (string, error) {
 	return b.String(), nil
 }
 
-var reBuiltin = regexp.MustCompile(`\b(old|ite|fresh|same|isNaN|ifaceOf|samebase|offset|isEOF|isUEOF|iserr|isLE|isBE|rvmt|rvfld|rvobj|rvcls|rvttag|rvstate|rvwid|rvecls|rvewid|rvvalid|rvismsg|tsec|tns|tzoff|tzid|rvNumField|rvClass|rvWidth|rvEClass|rvEWidth|rvTypeTag)\(`)
+var reBuiltin = regexp.MustCompile(`\b(old|ite|fresh|same|isNaN|ifaceOf|samebase|offset|isEOF|isUEOF|iserr|isLE|isBE|ifaceobj|allfields|rvmt|rvfld|rvobj|rvcls|rvttag|rvstate|rvwid|rvecls|rvewid|rvvalid|rvismsg|tsec|tns|tzoff|tzid|rvNumField|rvClass|rvWidth|rvEClass|rvEWidth|rvTypeTag)\(`)
 var reTypeIs = regexp.MustCompile(`\btypeis\[`)
 var reMsgOf = regexp.MustCompile(`\bmsgOf\[`)
 var reTypeTag = regexp.MustCompile(`\btypetag\[`)
@@ -746,6 +751,10 @@ func rewriteBuiltins(s string) string {
 			return "govcTzoff("
 		case "tzid(":
 			return "govcTzid("
+		case "ifaceobj(":
+			return "govcIfaceObj("
+		case "allfields(":
+			return "govcAllFields("
 		case "isLE(":
 			return "govcIsLE("
 		case "isBE(":
